@@ -35,6 +35,8 @@ ReqT(g) ==
           bin |-> g.bin, big |-> g.big, es |-> g.es])
 RstT(sid) == Tick /\ RstC(sid) /\ lastSid' = sid /\ UNCHANGED nreq
 FinT(sid) == Tick /\ Fin(sid) /\ lastSid' = sid /\ UNCHANGED nreq
+FinMsgT(sid) == Tick /\ win = "tiny" /\ FinMsg(sid) /\ lastSid' = sid /\ UNCHANGED nreq
+WinUpT(sid) == Tick /\ WinUp(sid) /\ lastSid' = sid /\ UNCHANGED nreq
 Next == \/ \E g \in Shapes : ReqT(g)
-        \/ \E sid \in 1..(6 * MaxReq + 1) : RstT(sid) \/ FinT(sid)   \* (a constant range: TLC labels the actions)
+        \/ \E sid \in 1..(6 * MaxReq + 1) : RstT(sid) \/ FinT(sid) \/ FinMsgT(sid) \/ WinUpT(sid)   \* (a constant range: TLC labels the actions)
 ====
